@@ -85,11 +85,14 @@ def gen_cases(tier, seed):
         yield {'handles': nh, 'script': script,
                # many events sent to the worlds that were left
                'flood': rng.choice([0, 0, 0, 300]),
+               # the loop is NOT desper.default_loop (from_world explicit)
+               'own_loop': rng.random() < 0.3,
                # worlds are instances of a World subclass that is falsy
                'falsy_world': rng.random() < 0.3}
     for i in range(3 if tier == 'quick' else 48):
         rng = random.Random(f'C13/scale/{seed}/{tier}/{i}')
         yield {'handles': 2, 'flood': 300, 'falsy_world': i % 2 == 1,
+               'own_loop': i % 3 == 0,
                'script': [{'target': 1, 'cc': False, 'cn': False,
                            'how': rng.choice(HOW[:2]), 'issuer': 'proc',
                            'delay': 0},
@@ -152,7 +155,7 @@ def run_case(case):
         if req['how'] == 'raise':
             raise desper.SwitchWorld(target, req['cc'], req['cn'])
         kwargs = {}
-        if req['how'] == 'switch_explicit':
+        if req['how'] == 'switch_explicit' or case.get('own_loop'):
             kwargs['from_world'] = world
         desper.switch(target, clear_current=req['cc'], clear_next=req['cn'],
                       **kwargs)
@@ -274,7 +277,10 @@ def run_case(case):
 
     handles = [LH(i) for i in range(case['handles'])]
     saved = desper.default_loop
-    desper.default_loop = loop
+    if not case.get('own_loop'):
+        desper.default_loop = loop
+    else:
+        res.tags['loop_is_default'].add(False)
     outcome = 'returned'
     try:
         loop.switch(handles[0])
